@@ -52,6 +52,7 @@ CONSTANTS
 Cap(w) ==
     CASE w = "foo" -> "Foo" [] w = "bar" -> "Bar" [] w = "baz" -> "Baz" [] w = "id" -> "Id" [] w = "url" -> "Url"
       [] w = "a" -> "A" [] w = "b" -> "B" [] w = "c" -> "C" [] w = "x" -> "X"
+      [] w = "line" -> "Line" [] w = "1" -> "1"
       [] w = "alpha" -> "Alpha" [] w = "beta" -> "Beta" [] w = "gamma" -> "Gamma" [] w = "delta" -> "Delta"
       [] w = "one" -> "One" [] w = "two" -> "Two" [] w = "item" -> "Item"
       [] w = "apple" -> "Apple" [] w = "avocado" -> "Avocado" [] w = "almond" -> "Almond" [] w = "apricot" -> "Apricot"
@@ -64,6 +65,7 @@ Cap(w) ==
 Up(w) ==
     CASE w = "foo" -> "FOO" [] w = "bar" -> "BAR" [] w = "baz" -> "BAZ" [] w = "id" -> "ID" [] w = "url" -> "URL"
       [] w = "a" -> "A" [] w = "b" -> "B" [] w = "c" -> "C" [] w = "x" -> "X"
+      [] w = "line" -> "LINE" [] w = "1" -> "1"
       [] w = "alpha" -> "ALPHA" [] w = "beta" -> "BETA" [] w = "gamma" -> "GAMMA" [] w = "delta" -> "DELTA"
       [] w = "one" -> "ONE" [] w = "two" -> "TWO" [] w = "item" -> "ITEM"
       [] w = "apple" -> "APPLE" [] w = "avocado" -> "AVOCADO" [] w = "almond" -> "ALMOND" [] w = "apricot" -> "APRICOT"
@@ -431,9 +433,10 @@ EnumOptionChoices(n) == {[e |-> OptionNames[n + 1], rich |-> 0, label |-> ""]}
 \* R "Services": basePath, method, httpMethod, httpPath, request (required), response (optional: P file.proto APIMethod.response
 \* "when empty indicates a raw http response"); ":param" path segments name request fields (j5convert/service.go, proto/**/*.j5s)
 Verbs == {"GET", "POST", "PUT", "PATCH", "DELETE"}       \* P j5.client.v1.HTTPMethod
-PathShapes == {"lit", "param", "lit-param", "param-lit", "two-params", "camel-param", "snake-param"}
+PathShapes == {"lit", "param", "lit-param", "param-lit", "two-params", "camel-param", "snake-param", "digit-param"}
 PathOf(shape) ==
-    LET pa == Name(<<"foo", "id">>, "camel") pb == Name(<<"bar", "id">>, "snake") px == Name(<<"x">>, "camel") IN
+    \* pd: a digit is a word boundary of the snake-caser (line1 -> line_1), as in address1 / sha256
+    LET pa == Name(<<"foo", "id">>, "camel") pb == Name(<<"bar", "id">>, "snake") px == Name(<<"x">>, "camel") pd == Name(<<"line", "1">>, "camel") IN
     CASE shape = "lit" -> [segs |-> <<Lit("things")>>, params |-> <<>>]
       [] shape = "param" -> [segs |-> <<Param(px)>>, params |-> <<px>>]
       [] shape = "lit-param" -> [segs |-> <<Lit("things"), Param(px)>>, params |-> <<px>>]
@@ -441,6 +444,7 @@ PathOf(shape) ==
       [] shape = "two-params" -> [segs |-> <<Lit("things"), Param(pa), Lit("sub"), Param(pb)>>, params |-> <<pa, pb>>]
       [] shape = "camel-param" -> [segs |-> <<Lit("things"), Param(pa)>>, params |-> <<pa>>]
       [] shape = "snake-param" -> [segs |-> <<Lit("things"), Param(pb)>>, params |-> <<pb>>]
+      [] shape = "digit-param" -> [segs |-> <<Lit("things"), Param(pd)>>, params |-> <<pd>>]
 ParamFields(ps) == [i \in Idx(ps) |-> Plain(ps[i], Scalar("string"))]
 MethodChoices(owner, n) ==
     LET nm == MethodName(owner, n + 1) IN
@@ -448,7 +452,7 @@ MethodChoices(owner, n) ==
     \cup { [e |-> Method(nm, v, PathOf(sh).segs, ParamFields(PathOf(sh).params), rs, <<>>), rich |-> 1,
             label |-> "method-" \o v \o "/" \o sh \o (IF rs THEN "" ELSE "/no-response")]
            : v \in (IF Breadth = "full" THEN Verbs ELSE {"GET", "POST"}),
-             sh \in (IF Breadth = "full" THEN PathShapes ELSE {"lit", "two-params"}), rs \in BOOLEAN }
+             sh \in (IF Breadth = "full" THEN PathShapes ELSE {"lit", "two-params", "digit-param"}), rs \in BOOLEAN }
 
 \* R "Publish": one or more message blocks
 TopicMessageChoices(owner, n) == {[e |-> Message(MessageName(owner, n + 1), <<>>), rich |-> 0, label |-> ""]}
